@@ -57,6 +57,15 @@ Theorem C08_slim_and_native_modes_agree : forall (O : NumOps) (tp : T O) (f : fi
   select (mask f) (fit_signal_to_noise_map f) = fit_signal_to_noise_map (slim_of f).
 Proof. exact @slim_and_native_modes_agree. Qed.
 
+(* ---- the three chi-squared code paths of fit_util.py (fast, via the masked maps, plain on the selected
+        values) coincide, for every NumOps and without any shape hypothesis *)
+Theorem C08_chi_squared_paths_agree : forall (O : NumOps) (d : list (T O)) (mk : list bool) (m n : list (T O)),
+  let via_maps := chi_squared_with_mask_from
+                    (chi_squared_map_with_mask_from (residual_map_with_mask_from d mk m) n mk) mk in
+  chi_squared_with_mask_fast_from d mk m n = via_maps /\
+  chi_squared_from (chi_squared_map_from (residual_map_from (select mk d) (select mk m)) (select mk n)) = via_maps.
+Proof. exact @chi_squared_paths_agree. Qed.
+
 (* ---- element-wise maps: definition in fitted pixels, 0 in excluded (masked, native mode) pixels *)
 Theorem C08_maps_follow_definitions : forall (lnf : R -> R) (f : fit (T (RL lnf))),
   fit_okb f = true -> noise_positiveb f = true ->
@@ -167,7 +176,7 @@ Proof. vm_compute. repeat split. Qed.
 
 Print Assumptions C08_generated_composition_is_model. Print Assumptions C08_generated_composition_formulas.
 Print Assumptions C08_masked_values_irrelevant. Print Assumptions C08_slim_and_native_modes_agree.
-Print Assumptions C08_maps_follow_definitions. Print Assumptions C08_statistics_follow_definitions.
+Print Assumptions C08_chi_squared_paths_agree. Print Assumptions C08_maps_follow_definitions. Print Assumptions C08_statistics_follow_definitions.
 Print Assumptions C08_residual_flux_fraction_definition. Print Assumptions C08_signal_to_noise_definition.
 Print Assumptions C08_reduced_matrices_are_principal_submatrices. Print Assumptions C08_no_regularization_index_list.
 Print Assumptions C08_log_det_terms_are_restricted. Print Assumptions C08_regularization_term_definition.
